@@ -4,7 +4,7 @@ From Coq Require Import List ZArith Bool Lia Arith.
 From DD Require Import Model.Circuit Model.LexerD4 Model.LoadC2d Model.LoadD4 Spec.D4Sem Spec.D4Conform
   Proofs.PassLemmas Proofs.LoadD4Graph Proofs.LoadD4Ops Proofs.LoadD4Fold Proofs.LoadD4Flat Proofs.LoadD4Iso
   Proofs.LoadD4Pass2 Proofs.LoadD4Pass2S Proofs.LoadD4Struct Proofs.LoadD4Pass3 Proofs.LoadD4Free
-  Proofs.LoadD4Parse Proofs.LoadD4Sem Proofs.LoadD4Conf.
+  Proofs.LoadD4Parse Proofs.LoadD4Sem Proofs.LoadD4Conf Proofs.LoadD4Det.
 Import ListNotations.
 Local Open Scope nat_scope.
 
@@ -172,5 +172,19 @@ Proof.
   pose proof (is_len _ _ _ _ HI) as HL.
   apply (nth_order_inj _ _ _ _ HI); [lia|lia|congruence].
 Qed.
+
+(* the determinism certificate *)
+Lemma wf_det_ok : det_ok g3.
+Proof.
+  pose proof (det_ok_rep toks n0 n0 b (litP_nz NN) Hconf (rf_rep _ _ _ _ _ _ RF)) as D0.
+  pose proof (det_ok_free _ _ _ (rf_free _ _ _ _ _ _ RF) (rf_prov1 _ _ _ _ _ _ RF) (rf_ok1 _ _ _ _ _ _ RF) D0) as D1.
+  pose proof (det_ok_shrink _ _ (rf_step2 _ _ _ _ _ _ RF) D1) as D2.
+  apply (pass3_invariant rc ord Hord (litP_nz NN) (litP_sym NN) (fun s => det_ok (ls_g s))
+           _ _ _ (rf_ok2 _ _ _ _ _ _ RF) (rf_pass3 _ _ _ _ _ _ RF)); [exact D2|].
+  intros m sa sb nx _ Hoka _ Hda Hst. exact (det_ok_step ord m sa sb nx Hoka Hst Hda).
+Qed.
+
+Lemma wf_det_cert : det_cert C = true.
+Proof. exact (iso_det_cert _ _ _ _ HI wf_det_ok). Qed.
 End Conjuncts.
 End Pipeline.
